@@ -14,7 +14,7 @@ Mutation through shared Python objects becomes an explicit store:
 * general recursion through the store takes a fuel argument; running out of
   fuel is reported as `Err.outOfFuel`, every `assert` of the code is a branch
   returning `Err.internal site`.
-The code modelled is the repaired tree (fix: commits D1 and D9).
+The code modelled is the repaired tree (fix: commits D1, D3 and D9).
 -/
 namespace Tfv
 
@@ -108,7 +108,7 @@ def match3 (L : Lang) (σ : Store) : Nat → Bool → Bool → Term → Term →
       let bi := getVar σ bv
       if st && ao == BOT then some true
       else if (bi.upper.isSome || bi.lower.isSome) && arityOf L ao != 0 then some false
-      else if bi.upper.any (fun u => opSub L u ao true) then some false
+      else if bi.upper.any (fun u => !opSub L ao u) then some false
       else if bi.lower.any (fun l => !opSub L l ao) then some false
       else if aw && bi.wildcard then some true
       else none
@@ -116,7 +116,7 @@ def match3 (L : Lang) (σ : Store) : Nat → Bool → Bool → Term → Term →
       let ai := getVar σ av
       if st && bo == TOP then some true
       else if (ai.upper.isSome || ai.lower.isSome) && arityOf L bo != 0 then some false
-      else if ai.lower.any (fun l => opSub L bo l true) then some false
+      else if ai.lower.any (fun l => !opSub L l bo) then some false
       else if ai.upper.any (fun u => !opSub L u bo) then some false
       else if aw && ai.wildcard then some true
       else none
